@@ -530,7 +530,48 @@ def m_ed_sign(ip, seed, message):
     return sym_bytes(e, 64)
 
 
+zeros_f = z3.Function('zeros', I, BYTES)
+
+
+@_always
+def m_zeros(ip, n):
+    n = ip.resolve(n)
+    if isinstance(n, int):
+        return b'\x00' * n
+    n = z3.simplify(zint(n))
+    t = zeros_f(n)
+    ip.ctx.define(z3.Length(t) == z3.If(n < 0, 0, n))
+    ip.ctx.define(z3.Implies(n <= 0, t == z3.Empty(BYTES)))
+    return sym_bytes(t, z3.If(n < 0, 0, n))
+
+
+@_always
+def m_all_values_refs(ip, d):
+    d = _as_hdict(ip, d)
+    k = fresh('kb', BYTES)
+    v = z3.Select(d.maps['b'], k)
+    return z3.ForAll([k], z3.Or(VAL.is_absent(v), VAL.is_vref(v)), patterns=[v])
+
+
+@_always
+def m_concrete_len(ip, x):
+    x = ip.resolve(x)
+    return isinstance(x, (list, tuple)) or (isinstance(x, ZList) and sym.concrete_int(x.ln) is not None)
+
+
+@_always
+def m_strint_part(ip, d):
+    d = _as_hdict(ip, d)
+    r = models.hdict_copy(ip, d)
+    r.maps['b'] = z3.K(BYTES, VAL.absent)
+    return r
+
+
 def install2():
+    models.register_model(vocab.strint_part, m_strint_part)
+    models.register_model(vocab.concrete_len, m_concrete_len)
+    models.register_model(vocab.zeros, m_zeros)
+    models.register_model(vocab.all_values_refs, m_all_values_refs)
     models.register_model(vocab.is_bytes_or_absent, m_is_bytes_or_absent)
     models.register_model(vocab.is_bool_or_absent, m_is_bool_or_absent)
     models.register_model(vocab.is_int_or_absent, m_is_int_or_absent)
